@@ -2,7 +2,7 @@
 # usage: record_fix.sh <property> <replay name> <demo.rs> <DESIGN row text> <known_findings text>   (run after the fix: commit exists as /repo HEAD)
 P=$1; NAME=$2; DEMO=$3; ROW=$4; KF=$5
 H=$(git -C /repo rev-parse --short HEAD)
-(echo "// replay of the defect repaired by /repo commit $H ($P): copy to /repo/tests/ and run it with cargo test; it fails on the parent commit."; cat "$DEMO") > /verif/replay/fixed/${P}_${NAME}.rs
+(echo "// replay of the defect repaired by /repo commit $H ($P): copy to /repo/tests/ and run it with cargo test; it fails on the parent commit."; sed 's|^//!|//|' "$DEMO") > /verif/replay/fixed/${P}_${NAME}.rs   # (inner doc comments are not allowed where the replay is compiled into the crate)
 python3 - "$H" "$P" "$NAME" "$ROW" "$KF" <<'PY'
 import sys,re
 h,p,name,row,kf=sys.argv[1:6]
